@@ -70,6 +70,11 @@ def translate_statement(  # noqa: C901
         tval, val = translate_expression(stmt.value, env)  # TODO: typecheck
         res = decompose_to_symbols(val, f"{target}")
 
+        # A tuple typed value may be a flat list of bits: name them after the type
+        names = _bit_names(tval, target)
+        if len(names) == len(res):
+            res = [(name, x[1]) for name, x in zip(names, res)]
+
         env.bind(Binding(target, tval, [x[0] for x in res]), rebind=target in env)
         res = list(map(lambda x: (Symbol(x[0]), x[1]), res))
         return res, env
